@@ -387,3 +387,14 @@ def objective_call(spec, sums, seq="list", declared_sorted=None, weights=None, m
     out = guarded(run)
     after = arg.tolist() if isinstance(arg, np.ndarray) else list(arg)
     return out, [num(x) for x in after]
+
+
+def sums_binner_numitems(nbins, adds, index):
+    """BinnerKeepingSums: build an array of nbins bins, add the (value, bin) pairs, then ask numitems(index)."""
+    def run():
+        b = prtpy.BinnerKeepingSums()
+        bins = b.new_bins(nbins)
+        for v, i in adds:
+            b.add_item_to_bin(bins, v, i)
+        return num(b.numitems(bins, index))
+    return guarded(run)
